@@ -217,7 +217,103 @@ impl BothVisitor for BV<'_> {
     }
 }
 
+/// Variable-length leaf types: every one of them must be self-delimiting in the
+/// hasher stream, whatever follows it. `mk` builds the value whose content is
+/// the given ASCII bytes.
+trait SeqLike: StableHash + Sized {
+    const NAME: &'static str;
+    fn mk(b: &[u8]) -> Self;
+}
+macro_rules! seqlike {
+    ($t:ty, $name:expr, |$b:ident| $e:expr) => {
+        impl SeqLike for $t {
+            const NAME: &'static str = $name;
+            fn mk($b: &[u8]) -> Self { $e }
+        }
+    };
+}
+fn txt(b: &[u8]) -> String { String::from_utf8(b.to_vec()).unwrap() }
+seqlike!(String, "String", |b| txt(b));
+seqlike!(Box<str>, "Box<str>", |b| txt(b).into_boxed_str());
+seqlike!(std::sync::Arc<str>, "Arc<str>", |b| std::sync::Arc::from(txt(b)));
+seqlike!(std::rc::Rc<str>, "Rc<str>", |b| std::rc::Rc::from(txt(b)));
+seqlike!(std::borrow::Cow<'static, String>, "Cow<String>", |b| std::borrow::Cow::Owned(txt(b)));
+seqlike!(PathBuf, "PathBuf", |b| PathBuf::from(txt(b)));
+seqlike!(Box<std::path::Path>, "Box<Path>", |b| PathBuf::from(txt(b)).into_boxed_path());
+seqlike!(std::ffi::OsString, "OsString", |b| std::ffi::OsString::from(txt(b)));
+seqlike!(Box<std::ffi::OsStr>, "Box<OsStr>", |b| std::ffi::OsString::from(txt(b)).into_boxed_os_str());
+seqlike!(std::ffi::CString, "CString", |b| std::ffi::CString::new(b.to_vec()).unwrap());
+seqlike!(Box<std::ffi::CStr>, "Box<CStr>", |b| std::ffi::CString::new(b.to_vec()).unwrap().into_boxed_c_str());
+seqlike!(Vec<u8>, "Vec<u8>", |b| b.to_vec());
+seqlike!(Box<[u8]>, "Box<[u8]>", |b| b.to_vec().into_boxed_slice());
+seqlike!(std::sync::Arc<[u8]>, "Arc<[u8]>", |b| std::sync::Arc::from(b.to_vec()));
+seqlike!(std::collections::VecDeque<u8>, "VecDeque<u8>", |b| b.iter().copied().collect());
+seqlike!(std::collections::LinkedList<u8>, "LinkedList<u8>", |b| b.iter().copied().collect());
+seqlike!(std::collections::BTreeSet<u8>, "BTreeSet<u8>", |b| b.iter().copied().collect());
+seqlike!(HashSet<u8>, "HashSet<u8>", |b| b.iter().copied().collect());
+seqlike!(std::collections::BinaryHeap<u8>, "BinaryHeap<u8>", |b| b.iter().copied().collect());
+seqlike!(Vec<String>, "Vec<String>", |b| b.iter().map(|x| txt(&[*x])).collect());
+seqlike!(Vec<char>, "Vec<char>", |b| b.iter().map(|x| *x as char).collect());
+seqlike!(BTreeMap<u8, u8>, "BTreeMap<u8,u8>", |b| b.iter().map(|x| (*x, *x)).collect());
+seqlike!(HashMap<u8, u8>, "HashMap<u8,u8>", |b| b.iter().map(|x| (*x, *x)).collect());
+
+fn framing_for<L: SeqLike>(ctx: &WorkerCtx, rep: &mut Report) {
+    fn pair<T: StableHash>(ctx: &WorkerCtx, rep: &mut Report, what: String, a: &T, b: &T) {
+        rep.count("framing_pairs", 1);
+        rep.count("generic_framing_pairs", 1);
+        rep.evaluations += 1;
+        let (sa, sb) = (stream_of(a), stream_of(b));
+        if sa == sb {
+            viol(ctx, rep, "ambiguous-stream", &what, 0, format!("two unequal values feed the identical stream {}", hex(&sa)));
+        } else if hash_of(a, 0) == hash_of(b, 0) {
+            viol(ctx, rep, "equal-hash-unequal-values", &what, 0, "framing pair".into());
+        }
+        rep.distinct.insert(h64(&(&what, hash_of(a, 0))));
+    }
+    let n = L::NAME;
+    let m = L::mk;
+    // the boundary between two adjacent values moves: ab|c vs a|bc, and the empty cases
+    pair(ctx, rep, format!("({n},{n}) ab|c vs a|bc"), &(m(b"ab"), m(b"c")), &(m(b"a"), m(b"bc")));
+    pair(ctx, rep, format!("({n},{n}) ''|a vs a|''"), &(m(b""), m(b"a")), &(m(b"a"), m(b"")));
+    pair(ctx, rep, format!("Vec<{n}> [ab,c] vs [a,bc]"), &vec![m(b"ab"), m(b"c")], &vec![m(b"a"), m(b"bc")]);
+    pair(ctx, rep, format!("Vec<{n}> [a,b] vs [ab]"), &vec![m(b"a"), m(b"b")], &vec![m(b"ab")]);
+    pair(ctx, rep, format!("Vec<{n}> [''] vs []"), &vec![m(b"")], &Vec::<L>::new());
+    pair(ctx, rep, format!("[{n};2] ab|c vs a|bc"), &[m(b"ab"), m(b"c")], &[m(b"a"), m(b"bc")]);
+    pair(ctx, rep, format!("({n},String) ab|c vs a|bc"), &(m(b"ab"), txt(b"c")), &(m(b"a"), txt(b"bc")));
+    pair(ctx, rep, format!("(String,{n}) ab|c vs a|bc"), &(txt(b"ab"), m(b"c")), &(txt(b"a"), m(b"bc")));
+    pair(ctx, rep, format!("({n},Vec<u8>) ab|c vs a|bc"), &(m(b"ab"), b"c".to_vec()), &(m(b"a"), b"bc".to_vec()));
+    pair(ctx, rep, format!("Option<({n},{n})> ab|c vs a|bc"), &Some((m(b"ab"), m(b"c"))), &Some((m(b"a"), m(b"bc"))));
+    pair(ctx, rep, format!("Vec<Option<{n}>> [Some(''),None] vs [None,Some('')]"), &vec![Some(m(b"")), None], &vec![None, Some(m(b""))]);
+}
+
+fn generic_framing(ctx: &WorkerCtx, rep: &mut Report) {
+    framing_for::<String>(ctx, rep);
+    framing_for::<Box<str>>(ctx, rep);
+    framing_for::<std::sync::Arc<str>>(ctx, rep);
+    framing_for::<std::rc::Rc<str>>(ctx, rep);
+    framing_for::<std::borrow::Cow<'static, String>>(ctx, rep);
+    framing_for::<PathBuf>(ctx, rep);
+    framing_for::<Box<std::path::Path>>(ctx, rep);
+    framing_for::<std::ffi::OsString>(ctx, rep);
+    framing_for::<Box<std::ffi::OsStr>>(ctx, rep);
+    framing_for::<std::ffi::CString>(ctx, rep);
+    framing_for::<Box<std::ffi::CStr>>(ctx, rep);
+    framing_for::<Vec<u8>>(ctx, rep);
+    framing_for::<Box<[u8]>>(ctx, rep);
+    framing_for::<std::sync::Arc<[u8]>>(ctx, rep);
+    framing_for::<std::collections::VecDeque<u8>>(ctx, rep);
+    framing_for::<std::collections::LinkedList<u8>>(ctx, rep);
+    framing_for::<std::collections::BTreeSet<u8>>(ctx, rep);
+    framing_for::<HashSet<u8>>(ctx, rep);
+    framing_for::<std::collections::BinaryHeap<u8>>(ctx, rep);
+    framing_for::<Vec<String>>(ctx, rep);
+    framing_for::<Vec<char>>(ctx, rep);
+    framing_for::<BTreeMap<u8, u8>>(ctx, rep);
+    framing_for::<HashMap<u8, u8>>(ctx, rep);
+}
+
 fn framing_pairs(ctx: &WorkerCtx, rep: &mut Report) {
+    generic_framing(ctx, rep);
     fn pair<T: StableHash>(ctx: &WorkerCtx, rep: &mut Report, what: &str, a: &T, b: &T) {
         rep.count("framing_pairs", 1);
         rep.evaluations += 1;
